@@ -92,6 +92,45 @@ theorem tgz_full (ws : List Bytes) (pad : Nat) (hp : pad < 512) (h : (ws.flatten
 
 end Nfpm.Arc
 
+/-! ### the tar writer keeps whole blocks -/
+namespace Nfpm.Arc
+
+theorem blockPad_lt (n : Nat) : blockPad n < 512 := by unfold blockPad; omega
+
+theorem blockPad_spec (n : Nat) : (n + blockPad n) % 512 = 0 := by unfold blockPad; omega
+
+/-- invariant of the tar writer: everything written plus the owed padding is a whole number of blocks -/
+def TarInv (t : TarW) : Prop := t.pad < 512 ∧ (t.writes.flatten.length + t.pad) % 512 = 0
+
+theorem tarInv_member (t : TarW) (m : Bytes × Bytes) (h : TarInv t) (hh : m.1.length % 512 = 0) : TarInv (t.member m) := by
+  obtain ⟨_, h2⟩ := h
+  refine ⟨blockPad_lt _, ?_⟩
+  simp only [TarW.member, List.flatten_append, List.flatten_cons, List.flatten_nil, List.length_append, zeros_length,
+    List.append_nil]
+  have := blockPad_spec m.2.length
+  omega
+
+theorem tarInv_build (ms : List (Bytes × Bytes)) (hh : ∀ m ∈ ms, m.1.length % 512 = 0) (t : TarW) (h : TarInv t) :
+    TarInv (ms.foldl TarW.member t) := by
+  induction ms generalizing t with
+  | nil => exact h
+  | cons m rest ih =>
+    simp only [List.foldl_cons]
+    exact ih (fun x hx => hh x (List.mem_cons_of_mem _ hx)) _ (tarInv_member t m h (hh m (by simp)))
+
+/-- what the writes of a builder amount to: every member but the last is already padded -/
+theorem tarBuild_bytes (ms : List (Bytes × Bytes)) (t : TarW) :
+    (ms.foldl TarW.member t).writes.flatten ++ zeros (ms.foldl TarW.member t).pad
+      = t.writes.flatten ++ zeros t.pad ++ ms.flatMap (fun m => m.1 ++ m.2 ++ zeros (blockPad m.2.length)) := by
+  induction ms generalizing t with
+  | nil => simp
+  | cons m rest ih =>
+    simp only [List.foldl_cons, List.flatMap_cons]
+    rw [ih]
+    simp [TarW.member, List.append_assoc]
+
+end Nfpm.Arc
+
 /-! ### relative member names of normalised destinations -/
 namespace Nfpm
 open B Path Spec
